@@ -25,18 +25,19 @@ Proof. exact publish_confirm_outcome. Qed.
 Print Assumptions C13_outcome.
 
 (* A mandatory message that is returned: the wait for the verdict is not cut short by the return
-   (C05_return_does_not_abort_the_wait); the Ack is consumed by this very publish, which then
-   raises the return error - no verdict is left over for the next publish (this was the finding
-   confirm-aborted+late-ack, see KNOWN_FINDINGS.txt). *)
-Theorem C13_verdict_consumed_then_return_raised : forall sc s c v0 v u f l h more,
+   (C05_return_does_not_abort_the_wait); it ends with the verdict on this very message first in
+   line and the return error back at the head of the queue - where the check publish makes for
+   mandatory messages finds and raises it.  No verdict is left over for the next publish (this
+   was the finding confirm-aborted+late-ack, see KNOWN_FINDINGS.txt). *)
+Theorem C13_verdict_taken_return_requeued : forall sc s c v0 v u f l held,
   get_chan (s_chans s) c = Some v -> resp_get (c_resp v) u = Some (f :: l) ->
-  exists s' v', wait_rpc sc s c v0 u false (h :: more) = (s', v', Raise h, sc) /\
+  exists s' v', wait_rpc sc s c v0 u false held = (s', v', Ok tt, sc) /\
                 get_chan (s_chans s') c = Some v' /\
-                c_errs v' = more ++ c_errs v /\
-                c_req v' = req_del_uuid (c_req v) u /\ c_resp v' = resp_del (c_resp v) u /\
+                c_errs v' = held ++ c_errs v /\
+                c_req v' = c_req v /\ resp_get (c_resp v') u = Some (f :: l) /\
                 s_out s' = s_out s.
-Proof. exact wait_rpc_reply_then_return. Qed.
-Print Assumptions C13_verdict_consumed_then_return_raised.
+Proof. exact wait_rpc_reply_requeues. Qed.
+Print Assumptions C13_verdict_taken_return_requeued.
 
 (* the history that used to fail *)
 Example C13_aborted_history : let i := ((1%nat, [{| st_chan := 1%nat; st_op := (ARpc 3%nat); st_script := [[(1%nat, {| f_name := NSelectOk; f_num := (0)%Z; f_str := ([]%N) |})]] |}; {| st_chan := 1%nat; st_op := (APublish true); st_script := [[(1%nat, {| f_name := NReturn; f_num := (312)%Z; f_str := ([]%N) |}); (1%nat, {| f_name := NHeader; f_num := (0)%Z; f_str := ([]%N) |})]; [(1%nat, {| f_name := NAck; f_num := (-1)%Z; f_str := ([]%N) |})]] |}; {| st_chan := 1%nat; st_op := (APublish true); st_script := [[]] |}])) in c13_ok i (chan_model i) = true.
